@@ -50,17 +50,9 @@ type violation struct {
 	Input      bool // a failing input was found and replayed on the real code
 }
 
-type knownFinding struct {
-	Property    string   `json:"property"`
-	ID          string   `json:"id"`
-	Obligations []string `json:"obligations"`
-	What        string   `json:"what"`
-	Repro       string   `json:"repro"`
-}
-
 type knownFile struct {
-	Findings []knownFinding `json:"findings"`
-	Fixed    []string       `json:"fixed"`
+	Findings []finding `json:"findings"`
+	Fixed    []string  `json:"fixed"`
 }
 
 func main() {
@@ -221,14 +213,32 @@ func main() {
 	}
 	// report
 	kf := loadKnown()
-	known := map[string]*knownFinding{}
-	for i := range kf.Findings {
-		f := &kf.Findings[i]
-		if f.Property != prop {
-			continue
+	// known findings of this property: their repro is run against the real binary
+	knownHit := map[string]bool{}
+	var knownLines []string
+	{
+		var mine []finding
+		for _, f := range kf.Findings {
+			if f.Property == prop {
+				mine = append(mine, f)
+			}
 		}
-		for _, o := range f.Obligations {
-			known[o] = f
+		if len(mine) > 0 && *only == "" {
+			bin, cleanup, err := buildFc()
+			if err != nil {
+				r.extraVio = append(r.extraVio, violation{Obligation: "known-findings/build-fc", Detail: err.Error()})
+			} else {
+				for _, f := range mine {
+					ok, desc := runRepro(bin, f)
+					if ok {
+						knownHit[f.ID] = true
+						knownLines = append(knownLines, fmt.Sprintf("KNOWN-FINDING: property=%s %s: %s [carve-out: %s; repro: %s]", prop, f.ID, f.What, f.CarveOut, desc))
+					} else {
+						r.notes = append(r.notes, fmt.Sprintf("known finding %s no longer reproduces (%s): remove its carve-out %q and its entry", f.ID, desc, f.CarveOut))
+					}
+				}
+				cleanup()
+			}
 		}
 	}
 	os.MkdirAll(filepath.Join(verifDir, "replays", prop), 0o755)
@@ -236,7 +246,6 @@ func main() {
 	solverTally := map[string]int{}
 	solverTime := 0.0
 	var vios []violation
-	knownHit := map[string]bool{}
 	for _, o := range r.obls {
 		if *verbose {
 			st := "ok  "
@@ -258,10 +267,6 @@ func main() {
 			solverTally[o.Solver]++
 			continue
 		}
-		if f, ok := known[o.Name]; ok {
-			knownHit[f.ID] = true
-			continue
-		}
 		v := violation{Obligation: o.Name, Detail: o.Clause}
 		mdl := ""
 		if o.Result == "sat" {
@@ -280,10 +285,8 @@ func main() {
 	if *only == "" && nOb < minOb {
 		vios = append(vios, violation{Obligation: "meta/obligation-count", Detail: fmt.Sprintf("only %d obligations generated, committed minimum is %d (a contract file was lost or emptied?)", nOb, minOb)})
 	}
-	for _, f := range kf.Findings {
-		if f.Property == prop && knownHit[f.ID] {
-			fmt.Printf("KNOWN-FINDING: property=%s %s\n", prop, f.What)
-		}
+	for _, l := range knownLines {
+		fmt.Println(l)
 	}
 	exit := 0
 	for _, v := range vios {
